@@ -48,6 +48,28 @@ def run(tier):
     p3 = vlib.Pipeline(PROP, "wire_cat", "wire/CatTrace", "CatTrace_C12.cfg")
     p3.push(cat, "cat", timeout=3000)
     p3.confirm(v, lambda scen, kind, detail, rec=None: {"family": "wire_cat", "kind": kind, "id": scen.get("id")})
+    # the two library classes that keep layers of the user's packets across calls (anchors src/ip_reassembler.cpp,
+    # src/tcp_stream.cpp): the ownership contract of spec/pdu/Holders, validated on the fragment schedules of C08 and on the
+    # segment schedules of C06 (the legacy follower), with every way a connection can end while segments are still buffered
+    hm = [vlib.model_check("pdu/Holders", "Holders.cfg" if quick else "Holders_t.cfg", timeout=1800)]
+    for m in ["free_keeps_map", "dup_drops_payload", "steal_without_take"]:
+        vlib.expect_violation("pdu/Holders", "Holders_%s.cfg" % m, timeout=300)
+    import random
+    from families import c08
+    rng = random.Random(vlib.seed())
+    fr, _ = vlib.tlc_generate("ip/FragGen", "FragGen_bfs.cfg", timeout=600)
+    fr = fr[:: (4 if quick else 1)] + c08.shuffles(600 if quick else 20000, rng)
+    for i, s in enumerate(fr):
+        s["mode"] = c08.MODES[i % 3]
+        s["scale"] = [1, 2, 5][(i // 3) % 3]
+    ph = vlib.Pipeline(PROP, "ip_frag", "pdu/HolderTrace", "HolderTrace.cfg", harness_args=["--own", "1", "--batch", "50"])
+    ph.push(fr, "own", timeout=3000)
+    ph.confirm(v, lambda scen, kind, detail, rec=None: {"family": "holder-reasm", "kind": kind})
+    segs, _ = vlib.tlc_generate("tcp/ReassemblyGen", "ReassemblyGen_q.cfg", timeout=900)
+    segs = sorted({vlib.canon_hash(s): s for s in segs}.values(), key=vlib.canon_hash)[: (1500 if quick else 30000)]
+    pl = vlib.Pipeline(PROP, "tcp_reasm", "pdu/HolderTrace", "HolderTrace.cfg", harness_args=["--own", "1", "--objects", "legacy", "--isns", "2", "--batch", "50"])
+    pl.push(segs, "own", timeout=3000)
+    pl.confirm(v, lambda scen, kind, detail, rec=None: {"family": "holder-follower", "kind": kind})
     rc = v.finish()
     classes = set()
     for rec in vlib.read_trace_index(p.dir + "/pdu_forest-s0.trace.ndjson").values():
@@ -56,7 +78,12 @@ def run(tier):
     cov = {
         "states": sum(r.distinct for r in mc) + p.stats["tlc_states"],
         "transitions": sum(r.generated for r in mc) + p.stats["tlc_generated"],
-        "traces_validated_against_impl": p.stats["executions"] + p3.stats["executions"],
+        "traces_validated_against_impl": p.stats["executions"] + p3.stats["executions"] + ph.stats["executions"] + pl.stats["executions"],
+        "holders": {"model": {"distinct": hm[0].distinct, "generated": hm[0].generated, "mutants_refuted": ["free_keeps_map", "dup_drops_payload", "steal_without_take"]},
+                    "reassembler_executions": ph.stats["executions"], "legacy_follower_executions": pl.stats["executions"],
+                    "rule": "IPv4Reassembler on fragment schedules (duplicates before and after completion, two datagrams) and the legacy "
+                            "TCPStreamFollower on segment schedules ending in nothing / FIN / RST / both FINs with segments still buffered: "
+                            "the user's packet keeps every layer the contract does not take, parent links sound, no leak once the holder is gone"},
         "catalogue_clone_checks": p3.stats["executions"],
         "samples": [bfs[len(bfs) // 2], sim[0]] + p.samples[:2],
         "evaluations": len(scen), "distinct_nontrivial": len(distinct),
@@ -86,4 +113,8 @@ def replay(path):
     with open(path) as f:
         if json.load(f)["replay"]["harness"] == "wire_cat":
             return vlib.Pipeline(PROP, "wire_cat", "wire/CatTrace", "CatTrace_C12.cfg").replay_file(path)
+        f.seek(0)
+        h = json.load(f)["replay"]
+        if h["harness"] in ("ip_frag", "tcp_reasm"):
+            return vlib.Pipeline(PROP, h["harness"], "pdu/HolderTrace", "HolderTrace.cfg").replay_file(path)
     return vlib.Pipeline(PROP, "pdu_forest", "pdu/PDUForestTrace").replay_file(path)
